@@ -14,6 +14,7 @@ From Coq Require Import List Arith NArith ZArith Bool.
 Import ListNotations.
 Require Import SR.Base.Res SR.Spec.Layout SR.Model.Layout SR.Model.LayoutValue SR.Spec.Coherence SR.Proofs.LayoutValueP.
 Require SR.Spec.Table SR.Spec.JsonDoc SR.Model.SchemaMaker SR.Proofs.SchemaMakerP SR.Model.HeaderRow SR.Proofs.HeaderRowP.
+Require SR.Proofs.LayoutP.
 Open Scope nat_scope.
 
 (* ---- name: every location tree, every anchors table, every record, every decoder.
@@ -57,7 +58,8 @@ Proof. exact index_refused. Qed.
 Print Assumptions C10_index_refused.
 
 (* ---- index: whole and part, for every navigator reached from unpacker.nav by names and indices,
-   when the items schema has no $ref and no OCCURS DEPENDING ON inside (PARTIAL: see below) *)
+   when the items schema has no $ref and no OCCURS DEPENDING ON inside; no condition on the rest of the schema.
+   (Items WITH $ref: C10_commute_index below.) *)
 Theorem C10_commute_index_partial : forall (B A : Type) (dcount : list B -> nat) (dec : option key -> list B -> res A)
     (r : list B) (s : js) (p : list wstep) (v0 v : vnav) st sz isz cnt it sch (xs : list (pv A)) i,
   vnav_of dcount r s = Ok v0 -> vnav_path dcount r v0 p = Ok v ->
@@ -70,22 +72,24 @@ Proof.
 Qed.
 Print Assumptions C10_commute_index_partial.
 
-(* The full statement: the same for every items schema that is CLOSED (every $ref inside refers to an anchor
-   registered inside the item, and nothing outside re-registers that name) and ODO-free.  Not proved: the value of
-   the part is computed with the fuel of the item's own anchors table, and showing that fuel sufficient needs
-   an acyclicity argument.  The correspondence run checks whole-versus-part on every generated tree, and those
-   have REDEFINES ($ref) inside repeated groups.  Items that contain an OCCURS DEPENDING ON table are NOT closed
-   and index() raises KeyError on them: C10_index_odo_refuted. *)
-Definition C10_commute_index_statement : Prop :=
-  forall (B A : Type) (dcount : list B -> nat) (dec : option key -> list B -> res A)
-    (r : list B) (s : js) (p : list wstep) (v0 v : vnav) st sz isz cnt it sch an0 new (xs : list (pv A)) i,
+(* ---- index: whole and part, for items that contain $ref (REDEFINES inside a group inside a repeated group).
+   cobol_like s (Spec/Coherence.v; a boolean on the schema alone): every $ref is a property of an object and names the
+   $anchor of a direct alternative of a oneOf that is an EARLIER property of the same object (what REDEFINES emits),
+   and no $anchor occurs twice.  The items schema must not contain OCCURS DEPENDING ON (C10_index_odo_refuted).
+   The fuel question is settled inside the proof: registered locations only refer to names registered before them,
+   so the fuel of the re-walked item's own anchors table suffices (lemma settled). *)
+Theorem C10_commute_index : forall (B A : Type) (dcount : list B -> nat) (dec : option key -> list B -> res A)
+    (r : list B) (s : js) (p : list wstep) (v0 v : vnav) st sz isz cnt it sch (xs : list (pv A)) i,
+  cobol_like s = true ->
   vnav_of dcount r s = Ok v0 -> vnav_path dcount r v0 p = Ok v ->
   vn_loc v = WArr st sz isz cnt it sch -> odo_free sch = true ->
-  walkv dcount r sch st an0 = Ok (it, new ++ an0) ->
-  (forall t, In t (map fst new) -> wlookup t (vn_an v) = wlookup t new) ->
-  (forall k l, In (k, l) ((KName 0%N, it) :: new) -> forall st' t, sub_ref l st' t -> In t (map fst new)) ->
   vnav_value r dec v = Some (Ok (PList xs)) -> i < cnt ->
   exists v' x, vnav_index dcount r v i = Ok v' /\ nth_error xs i = Some x /\ vnav_value r dec v' = Some (Ok x).
+Proof.
+  intros B A dcount dec r s p v0 v st sz isz cnt it sch xs i Hc H0 Hp.
+  apply (commute_index_J B dcount A dec r). exact (J_path B dcount r p v0 v (J_of B dcount r s v0 Hc H0) Hp).
+Qed.
+Print Assumptions C10_commute_index.
 
 (* ---- raw bytes: a child lies inside its parent, and its raw bytes are that slice of the parent's *)
 Theorem C10_raw : forall (B : Type) (r : list B) (v v' : vnav),
@@ -123,17 +127,29 @@ Proof.
   repeat split; try assumption. now apply raw_slice.
 Qed.
 Print Assumptions C10_raw_index.
-(* PARTIAL: a $ref placeholder (a COBOL name that belongs to a REDEFINES union) resolves through the anchors to an
-   alternative of an earlier oneOf; that it lies inside the parent follows from C01's well-formedness (the union
-   lies inside the group) and is checked on every generated case by the judge, not proved here. *)
+(* every child reached by name, the $ref placeholders (members of a REDEFINES union) included, for cobol_like schemas:
+   the alternative a placeholder resolves to lies inside the object that holds the placeholder *)
+Theorem C10_raw_name_all : forall (B : Type) (dcount : list B -> nat) (r : list B) (s : js) (p : list wstep) (v0 v v' : vnav) k,
+  cobol_like s = true ->
+  vnav_of dcount r s = Ok v0 -> vnav_path dcount r v0 p = Ok v ->
+  vnav_name v k = Ok v' ->
+  wstart (vn_loc v) <= wstart (vn_loc v') /\ wend (vn_loc v') <= wend (vn_loc v) /\
+  vnav_raw r v' = slice (vnav_raw r v) (wstart (vn_loc v') - wstart (vn_loc v)) (wend (vn_loc v') - wstart (vn_loc v)).
+Proof.
+  intros B dcount r s p v0 v v' k Hc H0 Hp Hn.
+  destruct (name_inside_all B dcount r v k v' (J_path B dcount r p v0 v (J_of B dcount r s v0 Hc H0) Hp) Hn) as [H1 H2].
+  repeat split; try assumption. now apply raw_slice.
+Qed.
+Print Assumptions C10_raw_name_all.
 
 (* ---- laziness (non-interference).  v is one navigator, valid for both records (the same location tree:
    that is what agreement on the ODO counters buys; for a schema without ODO the tree does not depend on the
    record at all, C10_tree_fixed).  If the records agree on the bytes of v's own range then value() gives the
    same answer, the exception included: undecodable bytes anywhere else can neither raise nor change it.
    foot_inside v says that value() takes no slice outside [start, end); it is computed from the location tree
-   alone, the judge evaluates it on every location of every generated case, and C10_foot_inside_simple proves it
-   for schemas without $ref and ODO. *)
+   alone.  It is a THEOREM for every location reached in a cobol_like schema (C10_foot_inside), hence for everything
+   cobol_parser emits for a well-formed record description (C10_foot_inside_cobol, C10_lazy_cobol), and for schemas
+   without $ref and ODO (C10_foot_inside_simple); the judge also evaluates it on every location of every case. *)
 Theorem C10_lazy : forall (B A : Type) (dec : option key -> list B -> res A) (r r' : list B) (v : vnav),
   foot_inside v = true ->
   vnav_raw r v = vnav_raw r' v ->
@@ -182,6 +198,28 @@ Theorem C10_foot_inside_simple : forall (B : Type) (dcount : list B -> nat) (r :
   simple s = true -> vnav_of dcount r s = Ok v0 -> vnav_path dcount r v0 p = Ok v -> foot_inside v = true.
 Proof. exact foot_inside_simple. Qed.
 Print Assumptions C10_foot_inside_simple.
+
+(* for cobol_like schemas (with or without OCCURS DEPENDING ON) every location reached reads inside its own range *)
+Theorem C10_foot_inside : forall (B : Type) (dcount : list B -> nat) (r : list B) s p v0 v,
+  cobol_like s = true -> vnav_of dcount r s = Ok v0 -> vnav_path dcount r v0 p = Ok v -> foot_inside v = true.
+Proof.
+  intros B dcount r s p v0 v Hc H0 Hp.
+  exact (foot_inside_J B dcount r v (J_path B dcount r p v0 v (J_of B dcount r s v0 Hc H0) Hp)).
+Qed.
+Print Assumptions C10_foot_inside.
+
+(* hence laziness without the side condition: a navigator reached in record r, evaluated on any record r' that has the
+   same bytes in the navigator's own range, gives the same answer, exceptions included *)
+Theorem C10_lazy_cobol_like : forall (B A : Type) (dcount : list B -> nat) (dec : option key -> list B -> res A)
+    (r r' : list B) s p v0 v,
+  cobol_like s = true -> vnav_of dcount r s = Ok v0 -> vnav_path dcount r v0 p = Ok v ->
+  vnav_raw r v = vnav_raw r' v ->
+  vnav_value r dec v = vnav_value r' dec v.
+Proof.
+  intros B A dcount dec r r' s p v0 v Hc H0 Hp. apply (lazy_value B A dec).
+  exact (foot_inside_J B dcount r v (J_path B dcount r p v0 v (J_of B dcount r s v0 Hc H0) Hp)).
+Qed.
+Print Assumptions C10_lazy_cobol_like.
 
 (* ---- NDNav.index on a negative int is NOT refused (finding K-negative-index): the only test is
    index >= item_count, and the occurrence is walked from a start before the table *)
@@ -293,6 +331,85 @@ Example C10_index_odo_refuted :
   | Err _ => False
   end.
 Proof. vm_compute. split; reflexivity. Qed.
+
+(* ------------------------------------------------------------------ COBOL-built schemas of well-formed record descriptions.
+   SR.Proofs.LayoutP.wf e t and NoDup (ids t) are C01's hypotheses: no OCCURS DEPENDING ON, every REDEFINES names an
+   earlier non-redefining sibling no shorter than itself, no elementary OCCURS item in a union, no REDEFINES directly
+   inside a repeated group, item ids distinct.  For these the side conditions above are theorems, so whole-versus-part
+   for indices, containment of every child and laziness hold with no hypothesis left about the schema. *)
+Theorem C10_cobol_like_built : forall (e : env) (t : item),
+  SR.Proofs.LayoutP.wf e t = true -> NoDup (SR.Proofs.LayoutP.ids t) -> cobol_like (build t) = true.
+Proof. exact cobol_like_build. Qed.
+Print Assumptions C10_cobol_like_built.
+
+Theorem C10_commute_index_cobol : forall (B : Type) (dcount : list B -> nat) (A : Type) (dec : option key -> list B -> res A)
+    (r : list B) (e : env) (t : item) (p : list wstep) (v0 v : vnav) st sz isz cnt it sch (xs : list (pv A)) i,
+  SR.Proofs.LayoutP.wf e t = true -> NoDup (SR.Proofs.LayoutP.ids t) ->
+  vnav_of dcount r (build t) = Ok v0 -> vnav_path dcount r v0 p = Ok v ->
+  vn_loc v = WArr st sz isz cnt it sch ->
+  vnav_value r dec v = Some (Ok (PList xs)) -> i < cnt ->
+  exists v' x, vnav_index dcount r v i = Ok v' /\ nth_error xs i = Some x /\ vnav_value r dec v' = Some (Ok x).
+Proof. exact commute_index_cobol. Qed.
+Print Assumptions C10_commute_index_cobol.
+
+Theorem C10_raw_name_cobol : forall (B : Type) (dcount : list B -> nat) (r : list B) (e : env) (t : item) (p : list wstep) (v0 v v' : vnav) k,
+  SR.Proofs.LayoutP.wf e t = true -> NoDup (SR.Proofs.LayoutP.ids t) ->
+  vnav_of dcount r (build t) = Ok v0 -> vnav_path dcount r v0 p = Ok v -> vnav_name v k = Ok v' ->
+  wstart (vn_loc v) <= wstart (vn_loc v') /\ wend (vn_loc v') <= wend (vn_loc v) /\
+  vnav_raw r v' = slice (vnav_raw r v) (wstart (vn_loc v') - wstart (vn_loc v)) (wend (vn_loc v') - wstart (vn_loc v)).
+Proof. exact raw_name_cobol. Qed.
+Print Assumptions C10_raw_name_cobol.
+
+Theorem C10_raw_index_cobol : forall (B : Type) (dcount : list B -> nat) (r : list B) (e : env) (t : item) (p : list wstep) (v0 v v' : vnav)
+    st sz isz cnt it sch i,
+  SR.Proofs.LayoutP.wf e t = true -> NoDup (SR.Proofs.LayoutP.ids t) ->
+  vnav_of dcount r (build t) = Ok v0 -> vnav_path dcount r v0 p = Ok v ->
+  vn_loc v = WArr st sz isz cnt it sch -> vnav_index dcount r v i = Ok v' ->
+  wstart (vn_loc v') = st + isz * i /\ wsize (vn_loc v') = isz /\
+  vnav_raw r v' = slice (vnav_raw r v) (wstart (vn_loc v') - wstart (vn_loc v)) (wend (vn_loc v') - wstart (vn_loc v)).
+Proof. exact raw_index_cobol. Qed.
+Print Assumptions C10_raw_index_cobol.
+
+Theorem C10_foot_inside_cobol : forall (B : Type) (dcount : list B -> nat) (r : list B) (e : env) (t : item) (p : list wstep) (v0 v : vnav),
+  SR.Proofs.LayoutP.wf e t = true -> NoDup (SR.Proofs.LayoutP.ids t) ->
+  vnav_of dcount r (build t) = Ok v0 -> vnav_path dcount r v0 p = Ok v -> foot_inside v = true.
+Proof. exact foot_inside_cobol. Qed.
+Print Assumptions C10_foot_inside_cobol.
+
+(* laziness, unconditionally: undecodable bytes outside a location's own range can neither raise nor change its value *)
+Theorem C10_lazy_cobol : forall (B : Type) (dcount : list B -> nat) (A : Type) (dec : option key -> list B -> res A)
+    (r : list B) (e : env) (r' : list B) (t : item) (p : list wstep) (v0 v : vnav),
+  SR.Proofs.LayoutP.wf e t = true -> NoDup (SR.Proofs.LayoutP.ids t) ->
+  vnav_of dcount r (build t) = Ok v0 -> vnav_path dcount r v0 p = Ok v ->
+  vnav_raw r v = vnav_raw r' v ->
+  vnav_value r dec v = vnav_value r' dec v.
+Proof. exact lazy_cobol. Qed.
+Print Assumptions C10_lazy_cobol.
+
+(* non-vacuity: 01 R. 05 T OCCURS 2. 10 G. 15 B. 20 X PIC X(2). 20 Y REDEFINES X PIC X. 15 C REDEFINES B. 20 P PIC X(2).
+   20 Q REDEFINES P PIC X(2).   (ids R=1 T=2 G=3 B=4 X=5 Y=6 C=7 P=8 Q=9): REDEFINES, two levels deep, inside a table *)
+Definition ex_cobol : item :=
+  Group 1%N Once None (ICons (Group 2%N (Times 2) None (ICons (Group 3%N Once None
+    (ICons (Group 4%N Once None (ICons (Elem 5%N 2 Once None) (ICons (Elem 6%N 1 Once (Some 5%N)) INil)))
+    (ICons (Group 7%N Once (Some 4%N) (ICons (Elem 8%N 2 Once None) (ICons (Elem 9%N 2 Once (Some 8%N)) INil))) INil))) INil)) INil).
+Example C10_example_cobol_wf : SR.Proofs.LayoutP.wf (fun _ => 0) ex_cobol = true /\ cobol_like (build ex_cobol) = true.
+Proof. vm_compute. split; reflexivity. Qed.
+Example C10_example_cobol_ids : NoDup (SR.Proofs.LayoutP.ids ex_cobol).
+Proof. vm_compute. repeat constructor; simpl; intuition discriminate. Qed.
+Example C10_example_cobol_index :
+  match vnav_of ex_dcount [1; 2; 3; 4] (build ex_cobol) with
+  | Ok v0 =>
+      match vnav_name v0 (KName 2%N) with
+      | Ok v =>
+          match vnav_value [1; 2; 3; 4] ex_dec v, vnav_index ex_dcount [1; 2; 3; 4] v 1 with
+          | Some (Ok (PList [_; x1])), Ok v1 => vnav_value [1; 2; 3; 4] ex_dec v1 = Some (Ok x1)
+          | _, _ => False
+          end
+      | Err _ => False
+      end
+  | Err _ => False
+  end.
+Proof. vm_compute. reflexivity. Qed.
 
 (* ------------------------------------------------------------------ the tie to C01's layout model:
    forgetting the atom annotation turns walkv / vnav_name / vnav_index / vnav_raw into walk / nav_name / nav_index /
